@@ -192,6 +192,53 @@ def check_corpus(corpus, rnd, fails, counts):
                                 fails.append({"case": "C01-limit-%s/%s" % (path, kind), "detail": "%s: search(limit=%d, %s) -> %r but the matching documents are %r"
                                               % (name, lim, path, hits, exp), "corpus": corpus})
                                 break
+                    # ---- C11: the query's own matcher obeys the cursor protocol (span, phrase, multi-term and range
+                    # matchers are wrappers the algebraic kinds of matchers-bounded never build)
+                    def ids_of(m_, cap=200):
+                        out_ = []
+                        while m_.is_active() and len(out_) < cap:
+                            out_.append(m_.id())
+                            m_.next()
+                        return out_
+                    ctx = s.context()
+                    stepped = ids_of(q.matcher(s, ctx))
+                    if stepped != exp:
+                        fails.append({"case": "C11-step/%s" % kind, "detail": "%s: stepping the matcher gives %r expected %r" % (name, stepped, exp), "corpus": corpus})
+                    else:
+                        bad11 = None
+                        for t in range(0, (exp[-1] if exp else 0) + 2):
+                            m = q.matcher(s, ctx)
+                            if not m.is_active():
+                                break
+                            m.skip_to(t)
+                            want = [d for d in exp if d >= max(t, exp[0])]
+                            rest = ids_of(m)
+                            if rest != want:
+                                bad11 = ("C11-skip_to", "skip_to(%d) then stepping gives %r expected %r" % (t, rest, want))
+                                break
+                        for adv in (1, 2):
+                            m = q.matcher(s, ctx)
+                            n_adv = 0
+                            while m.is_active() and n_adv < adv:
+                                m.next()
+                                n_adv += 1
+                            if m.is_active():
+                                try:
+                                    c = m.copy()
+                                except NotImplementedError:
+                                    c = None       # on-disk leaf matchers refuse copy(): a refusal is not a wrong copy
+                                c_ids = ids_of(c) if c is not None else exp[n_adv:]
+                                if m.id() != (exp[n_adv] if n_adv < len(exp) else None) or c_ids != exp[n_adv:]:
+                                    bad11 = ("C11-copy", "copy after %d next(): copy gives %r, original at %r, expected %r" % (n_adv, c_ids, m.id(), exp[n_adv:]))
+                            try:
+                                m.reset()
+                                rs = ids_of(m)
+                            except NotImplementedError:
+                                rs = exp           # ArrayUnionMatcher refuses reset()
+                            if rs != exp:
+                                bad11 = ("C11-reset", "after %d next() and reset(): %r expected %r" % (n_adv, rs, exp))
+                        if bad11:
+                            fails.append({"case": "%s/%s" % (bad11[0], kind), "detail": "%s: %s" % (name, bad11[1]), "corpus": corpus})
                     un = sorted(h.docnum for h in s.search(q, limit=None, scored=False))
                     if un != exp:
                         fails.append({"case": "C01-unscored/%s" % kind, "detail": "%s: scored=False -> %r expected %r" % (name, un, exp), "corpus": corpus})
